@@ -55,6 +55,7 @@ func c17Schema(r *rand.Rand) models.IndexSchema {
 
 func (c17) Generate(r *rand.Rand, tier string) (sim.Config, any) {
 	cfg := RandomSimConfig(r)
+	cfg.StmtYield = pick(r, []float64{0, 0, 0.02, 0.1}) // statement-level preemption in the handler / cluster packages
 	cfg.IdleLimitSec = 3600
 	p := c17Params{NServers: 1 + r.IntN(3), MaxShardPts: int64(3 + r.IntN(6)), Schema: c17Schema(r), RpcRetries: 1 + r.IntN(2), ShardTimeout: pick(r, []int{5, 30, 300})}
 	nops := 6 + r.IntN(8)
@@ -229,8 +230,8 @@ func clusterTemplate(maxShardPts int64, retries, shardTimeout int) cluster.Clust
 func shardMembership(w *ClusterWorld, user, col string) (map[uuid.UUID][]string, map[string]string, error) {
 	where := map[uuid.UUID][]string{}
 	shardNode := map[string]string{}
-	for addr, n := range w.Nodes {
-		for rel, path := range ShardFiles(n.dir) {
+	for addr, n := range detRange(w.Nodes) {
+		for rel, path := range detRange(ShardFiles(n.dir)) {
 			parts := strings.Split(rel, "/")
 			if len(parts) != 3 || parts[0] != user || parts[1] != col {
 				continue
@@ -369,11 +370,37 @@ func (c17) Execute(env *Env) {
 				var ierr error
 				pts := toPoints(op.Points)
 				w.Call(entry, func(n *cluster.ClusterNode) { fr, ierr = n.InsertPoints(c, pts) })
-				if ierr != nil || len(fr) > 0 {
+				for try := 0; try < 3 && ierr != nil && len(fr) == 0 && shardClosedErr(ierr.Error()); try++ {
+					// refused as a whole while sizing the shards (nothing was sent): ask again
+					env.Stat("clean-already-closed", 1)
+					w.Call(entry, func(n *cluster.ClusterNode) { fr, ierr = n.InsertPoints(c, toPoints(op.Points)) })
+				}
+				// the one clean failure a healthy cluster may answer with: the request met a shard
+				// that its idle timer was just unloading (C12 allows "already closed"); such a
+				// range was not stored, which the audits below verify
+				skipped := map[int]bool{}
+				for _, f := range fr {
+					if !shardClosedErr(f.Err) {
+						ierr = fmt.Errorf("failed range %+v", f)
+					}
+					for k := f.Start; k < f.End && k < len(op.Points); k++ {
+						skipped[k] = true
+					}
+				}
+				if ierr != nil {
 					env.Violate("spurious-error", "cluster-insert", "%s: insert of fresh ids with every server up failed: err=%v failed ranges=%v", where, ierr, fr)
 					return
 				}
-				model.Insert(op.Points)
+				var stored []PointSpec
+				for k, pt := range op.Points {
+					if !skipped[k] {
+						stored = append(stored, pt)
+					}
+				}
+				if len(skipped) > 0 {
+					env.Stat("clean-already-closed", 1)
+				}
+				model.Insert(stored)
 			case "update":
 				var fp []cluster.FailedPoint
 				var uerr error
@@ -385,6 +412,7 @@ func (c17) Execute(env *Env) {
 				}
 				var processed []PointSpec
 				wantFailed := map[uuid.UUID]bool{}
+				closed := shardClosedIDs(env, fp)
 				// a point whose merged document is oversized makes its shard reject its whole part of the batch
 				rejecting := ""
 				if op.Oversize > 0 {
@@ -396,14 +424,14 @@ func (c17) Execute(env *Env) {
 				}
 				for _, pt := range op.Points {
 					id := PID(pt.ID)
-					if _, live := model.Docs[id]; live && reachable(id) && member[id][0] != rejecting {
+					if _, live := model.Docs[id]; live && reachable(id) && member[id][0] != rejecting && !closed[id] {
 						processed = append(processed, pt)
 					} else {
 						wantFailed[id] = true
 					}
 				}
 				model.Update(processed)
-				if msg := checkFailed(fp, wantFailed, shardsDown == 0 && rejecting == ""); msg != "" {
+				if msg := checkFailed(fp, wantFailed, shardsDown == 0 && rejecting == "" && len(closed) == 0); msg != "" {
 					env.Violate("wrong-answer", "failed-points:update", "%s: %s", where, msg)
 					return
 				}
@@ -421,16 +449,17 @@ func (c17) Execute(env *Env) {
 				}
 				var processed []int
 				wantFailed := map[uuid.UUID]bool{}
+				closed := shardClosedIDs(env, fp)
 				for _, id := range op.IDs {
 					u := PID(id)
-					if _, live := model.Docs[u]; live && reachable(u) {
+					if _, live := model.Docs[u]; live && reachable(u) && !closed[u] {
 						processed = append(processed, id)
 					} else {
 						wantFailed[u] = true
 					}
 				}
 				model.Delete(processed)
-				if msg := checkFailed(fp, wantFailed, shardsDown == 0); msg != "" {
+				if msg := checkFailed(fp, wantFailed, shardsDown == 0 && len(closed) == 0); msg != "" {
 					env.Violate("wrong-answer", "failed-points:delete", "%s: %s", where, msg)
 					return
 				}
@@ -439,6 +468,11 @@ func (c17) Execute(env *Env) {
 				var serr error
 				req := cloneRequest(*op.Search)
 				w.Call(entry, func(n *cluster.ClusterNode) { res, serr = n.SearchPoints(c, req) })
+				for try := 0; try < 3 && serr != nil && shardClosedErr(serr.Error()); try++ {
+					env.Stat("clean-already-closed", 1)
+					req = cloneRequest(*op.Search)
+					w.Call(entry, func(n *cluster.ClusterNode) { res, serr = n.SearchPoints(c, req) })
+				}
 				if serr != nil {
 					if shardsDown == 0 && len(c.ShardIds) > 0 {
 						env.Violate("spurious-error", "cluster-search", "%s: search with every server up failed: %v", where, serr)
@@ -466,13 +500,13 @@ func (c17) Execute(env *Env) {
 				env.Infra("membership: %v", err)
 				return
 			}
-			for id := range model.Docs {
+			for id := range detRange(model.Docs) {
 				if len(member[id]) != 1 {
 					env.Violate("wrong-answer", "point-placement", "%s: point %d is stored in %d shards %v, expected exactly one", where, PIDIndex(id), len(member[id]), member[id])
 					return
 				}
 			}
-			for id, locs := range member {
+			for id, locs := range detRange(member) {
 				if _, live := model.Docs[id]; !live {
 					env.Violate("wrong-answer", "ghost-point", "%s: point %d is still stored in %v although the model does not hold it", where, PIDIndex(id), locs)
 					return
@@ -496,6 +530,24 @@ func (c17) Execute(env *Env) {
 	env.SetStateHash(model.StateKey())
 }
 
+// shardClosedErr: the clean error of a request that met a shard while its idle
+// timer was unloading it (cluster/shardmgr.go DoWithShard; allowed by C12). The
+// request was not executed by that shard; a later request reloads the shard.
+func shardClosedErr(msg string) bool { return strings.Contains(msg, "is already closed") }
+
+func shardClosedIDs(env *Env, fp []cluster.FailedPoint) map[uuid.UUID]bool {
+	out := map[uuid.UUID]bool{}
+	for _, f := range fp {
+		if shardClosedErr(f.Err) {
+			out[f.Id] = true
+		}
+	}
+	if len(out) > 0 {
+		env.Stat("clean-already-closed", 1)
+	}
+	return out
+}
+
 func checkFailed(got []cluster.FailedPoint, want map[uuid.UUID]bool, complete bool) string {
 	seen := map[uuid.UUID]bool{}
 	for _, f := range got {
@@ -513,7 +565,7 @@ func checkFailed(got []cluster.FailedPoint, want map[uuid.UUID]bool, complete bo
 			return fmt.Sprintf("id %d reported \"not found\" although a shard did not answer", PIDIndex(f.Id))
 		}
 	}
-	for id := range want {
+	for id := range detRange(want) {
 		if !seen[id] {
 			return fmt.Sprintf("id %d was processed by no shard but is not listed as failed", PIDIndex(id))
 		}
@@ -533,9 +585,15 @@ func auditThroughNode(env *Env, w *ClusterWorld, addr string, c models.Collectio
 		strs = append(strs, PID(4000).String()) // never stored
 		var res []models.SearchResult
 		var err error
-		w.Call(addr, func(n *cluster.ClusterNode) {
-			res, err = n.SearchPoints(c, models.SearchRequest{Query: models.Query{Property: "_id", StringArray: &models.SearchStringArrayOptions{Value: strs, Operator: models.OperatorContainsAny}}, Select: []string{"*"}, Limit: 100})
-		})
+		for try := 0; try < 4; try++ {
+			w.Call(addr, func(n *cluster.ClusterNode) {
+				res, err = n.SearchPoints(c, models.SearchRequest{Query: models.Query{Property: "_id", StringArray: &models.SearchStringArrayOptions{Value: strs, Operator: models.OperatorContainsAny}}, Select: []string{"*"}, Limit: 100})
+			})
+			if err == nil || !shardClosedErr(err.Error()) {
+				break
+			}
+			env.Stat("clean-already-closed", 1) // met a shard being unloaded by its idle timer: a new request reloads it
+		}
 		if err != nil {
 			env.Violate("spurious-error", "cluster-read", "%s: reading points through %s failed: %v", where, addr, err)
 			return false
@@ -587,7 +645,7 @@ func checkClusterSearch(m *RefShard, schema models.IndexSchema, req models.Searc
 	hy := hybridOf(want)
 	seen := map[int]bool{}
 	var all []orderedItem
-	for id := range want.Set {
+	for id := range detRange(want.Set) {
 		h, ranked := hy[id]
 		all = append(all, orderedItem{id: id, ranked: ranked, hybrid: h, doc: Project(m.Docs[id], req.Select)})
 	}
